@@ -39,7 +39,9 @@ var vfsMethods = []string{
 // NumVFSMethods is len(vfsMethods).
 const NumVFSMethods = 43
 
-func twoPath(m string) bool { return m == "Link" || m == "Rename" || m == "Symlink" || m == "Rel" || m == "Match" }
+func twoPath(m string) bool {
+	return m == "Link" || m == "Rename" || m == "Symlink" || m == "Rel" || m == "Match"
+}
 
 func seed(v avfs.VFS, kind int) {
 	hx.Must(v.MkdirAll("/w/a", 0o755))
